@@ -149,6 +149,7 @@ type c40Plan struct {
 	feed  string // "emu" | "wal"
 	depth int
 	menu  []string
+	gate  bool // with the hold/release events H/U (see c40Cfg.Gate)
 }
 
 func c40Feed(name string) func(w *c40World) c40Feeder {
@@ -195,6 +196,17 @@ func TestVerifC40(t *testing.T) {
 			Ops    []string `json:"ops"`
 		}
 		r.LoadReplay(&rp)
+		if rp.Config == "queue" {
+			var rq struct {
+				Geo   c40QGeo `json:"geo"`
+				Calls []int   `json:"calls"`
+			}
+			r.LoadReplay(&rq)
+			if f, _ := c40QRun(rq.Geo, rq.Calls); f.sig != "" {
+				r.Violation(f.sig, f.msg, rq)
+			}
+			return
+		}
 		// config = "<cfg>/<feed>[|prefix,ops]"
 		name, pre, _ := strings.Cut(rp.Config, "|")
 		cn, feed, _ := strings.Cut(name, "/")
@@ -204,6 +216,8 @@ func TestVerifC40(t *testing.T) {
 		}
 		ops = append(ops, rp.Ops...)
 		cfg := cfgs[cn]
+		feed, gate := strings.CutSuffix(feed, "+gate")
+		cfg.Gate = gate
 		cfg.Wal = feed == "wal"
 		if f := eng.Replay(c40Mk(r, cfg, c40Feed(feed)), ops); f != nil {
 			r.Violation(f.Signature, f.Message, rp)
@@ -212,15 +226,19 @@ func TestVerifC40(t *testing.T) {
 	}
 
 	c40SelfTest(t)
+	var unit int64
+	c40QueueProtocol(t, r, &unit)
 
 	var plans []c40Plan
 	if r.Quick() {
-		plans = []c40Plan{{"v1", "emu", 5, nil}, {"v2+age", "emu", 4, nil}, {"v1~lifo", "emu", 4, nil}}
+		plans = []c40Plan{{cfg: "v1", feed: "emu", depth: 5, gate: true}, {cfg: "v1+cap4", feed: "emu", depth: 4, gate: true}, {cfg: "v2+age", feed: "emu", depth: 4, gate: true}, {cfg: "v1~lifo", feed: "emu", depth: 4, gate: true}}
 	} else {
 		plans = []c40Plan{
-			{"v2+age", "emu", 6, nil}, {"v1", "wal", 4, nil}, {"v2", "emu", 6, nil}, {"v1~lifo", "emu", 5, nil},
-			{"v1+age", "emu", 5, nil}, {"v2+age~lifo", "emu", 5, nil}, {"v2", "wal", 3, nil},
-			{"v1", "emu", 7, nil}, // the big one last: a deadline on an overloaded machine cuts only this plan
+			{cfg: "v1+cap4", feed: "emu", depth: 5, gate: true}, {cfg: "v2+cap4", feed: "emu", depth: 5, gate: true},
+			{cfg: "v1", feed: "emu", depth: 6, gate: true}, {cfg: "v2+age", feed: "emu", depth: 5, gate: true}, {cfg: "v1~lifo", feed: "emu", depth: 5, gate: true},
+			{cfg: "v2+age", feed: "emu", depth: 6}, {cfg: "v1", feed: "wal", depth: 4}, {cfg: "v2", feed: "emu", depth: 6}, {cfg: "v1~lifo", feed: "emu", depth: 5},
+			{cfg: "v1+age", feed: "emu", depth: 5}, {cfg: "v2+age~lifo", feed: "emu", depth: 5}, {cfg: "v2", feed: "wal", depth: 3},
+			{cfg: "v1", feed: "emu", depth: 7}, // the big one last: a deadline on an overloaded machine cuts only this plan
 		}
 	}
 	if v := os.Getenv("VERIF_C40_PLAN"); v != "" { // e.g. "v1:emu:4,v2:wal:3"
@@ -228,6 +246,7 @@ func TestVerifC40(t *testing.T) {
 		for _, p := range strings.Split(v, ",") {
 			q := strings.Split(p, ":")
 			pl := c40Plan{cfg: q[0], feed: q[1]}
+			pl.feed, pl.gate = strings.CutSuffix(pl.feed, "+gate")
 			fmt.Sscan(q[2], &pl.depth)
 			plans = append(plans, pl)
 		}
@@ -235,7 +254,6 @@ func TestVerifC40(t *testing.T) {
 	const prefixLen = 2
 	done := map[string]int{}
 	var doneMu sync.Mutex
-	var unit int64
 	for _, p := range plans {
 		cfg, ok := cfgs[p.cfg]
 		if !ok {
@@ -243,7 +261,11 @@ func TestVerifC40(t *testing.T) {
 		}
 		cfg.Menu = p.menu
 		cfg.Wal = p.feed == "wal"
+		cfg.Gate = p.gate
 		name := p.cfg + "/" + p.feed
+		if p.gate {
+			name += "+gate"
+		}
 		mk := c40Mk(r, cfg, c40Feed(p.feed))
 		completed := p.depth
 		// histories of <= prefixLen events: shard 0
@@ -295,8 +317,8 @@ func TestVerifC40(t *testing.T) {
 		t.Fatalf("determinism guard: %d of %d re-executed histories diverged, e.g. %s", len(d), eng.Guarded(), d[0])
 	}
 	r.Count("histories_executed_twice_by_determinism_guard", int(eng.Guarded()))
-	r.Set("event_menu", "A=next WAL batch (2 scrapes of m1,m2,drop_me[,m5,m6] + 1 histogram + 1 exemplar) | ok/rec/unrec=endpoint answers the oldest pending Store with 200/503/400 | okNewest=200 to the newest pending Store | T1=+110ms | T2=+1600ms | R1,R2,R3=reshard request through reshardChan | G=checkpoint: UpdateSeriesSegment+SeriesReset | S=QueueManager.Stop")
-	r.Set("queue_config", fmt.Sprintf("capacity=2 max_samples_per_send=2 min_shards=1 max_shards=3 batch_send_deadline=%v min_backoff=%v max_backoff=%v flush_deadline=%v sample_age_limit(age configs)=%v", c40BatchSendDeadline, c40MinBackoff, c40MaxBackoff, c40FlushDeadline, c40AgeLimit))
+	r.Set("event_menu", "A=next WAL batch (2 scrapes of m1,m2,drop_me[,m5,m6] + 1 histogram + 1 exemplar) | ok/rec/unrec=endpoint answers the oldest pending Store with 200/503/400 | okNewest=200 to the newest pending Store | T1=+110ms | T2=+1600ms | R1,R2,R3=reshard request through reshardChan | G=checkpoint: UpdateSeriesSegment+SeriesReset | S=QueueManager.Stop | (+gate plans) H=everybody about to lock a shard queue's batchMtx is held up there (the harness holds the mutexes), while held only A / ok / rec / one T1 / U are enabled | U=they go on")
+	r.Set("queue_config", fmt.Sprintf("capacity=2 (4 in the +cap4 configurations) max_samples_per_send=2 min_shards=1 max_shards=3 batch_send_deadline=%v min_backoff=%v max_backoff=%v flush_deadline=%v sample_age_limit(age configs)=%v", c40BatchSendDeadline, c40MinBackoff, c40MaxBackoff, c40FlushDeadline, c40AgeLimit))
 	r.Set("rule", "every sequence of enabled events up to the depth per configuration (events that cannot change anything in the current state are disabled), each replayed on a fresh QueueManager in a fresh synctest bubble with synctest.Wait after every event; states de-duplicated on the timed log of everything the environment did and saw + visible shard/queue state; after each history a closing phase (endpoint answers 200 at once, clock advances, Stop) and the delivery oracle; distinct_nontrivial = distinct (accepted-sample sequence, exemption reasons) outcomes with at least one accepted sample")
 	r.Assume("between two quiescent points the order in which runnable goroutines run is the Go runtime's (GOMAXPROCS=1, deterministic runtime overlay), not an enumerated choice")
 	r.Assume("sync.Mutex/RWMutex of storage/remote are replaced by the vsync shims in bubble mode (TryLock + park on a bubble channel) so that lock waits are visible to synctest; uber/std atomics are replaced by pass-through shims")
